@@ -34,9 +34,17 @@ PREDS = {
     'latin1': lambda ch: ord(ch) <= 255,
     'bmp': lambda ch: ord(ch) <= 0xFFFF,
     'identstart': lambda ch: ch.isidentifier(),
-    'nbsp': lambda ch: ch == '\xa0',
-    'linesep': lambda ch: ch in '\x85  ',
+    'dzero': lambda ch: ch.isdecimal() and _dec(ch) == 0,      # decimal digit of value 0 (int() accepts any script)
+    'dlt2': lambda ch: ch.isdecimal() and _dec(ch) < 2,
+    'dlt8': lambda ch: ch.isdecimal() and _dec(ch) < 8,
 }
+
+
+def _dec(ch):
+    import unicodedata
+    return unicodedata.decimal(ch)
+
+
 NAMES = sorted(PREDS)
 _STATE = {}
 
